@@ -247,11 +247,28 @@ def measure_blocks(draw, tier, small=False):
         if over:
             opts += ["override", "override"]
         if qs:
-            opts += ["gate"]
+            opts += ["gate", "bra", "bra"]
+        if len(scan) < cap:
+            opts += ["bits"]
         if not opts:
             break
         kind = draw(st.sampled_from(opts))
-        if kind == "bswap":
+        if kind == "bra":
+            off = draw(st.sampled_from(qs))
+            k = 1
+            while off + k in qs and draw(st.booleans()):
+                k += 1
+            add({"k": "g", "g": "Bra", "a": [draw(st.integers(0, 1))
+                                             for _ in range(k)]}, off)
+        elif kind == "bits":
+            # mostly to the right of every live bit (the position the
+            # exporter handles), sometimes anywhere
+            last = max([i + 1 for i, w in enumerate(scan) if w[0] == "bit"]
+                       or [0])
+            off = draw(st.integers(last, len(scan))) if draw(
+                st.integers(0, 3)) else draw(st.integers(0, len(scan)))
+            add({"k": "g", "g": "Bits", "a": [0]}, off)
+        elif kind == "bswap":
             off = draw(st.sampled_from(bits_adj))
             add({"k": "swap", "l": scan[off], "r": scan[off + 1]}, off)
         elif kind == "mswap":
